@@ -919,6 +919,34 @@ def c13_streams(ctx):
 
 
 # ------------------------------------------------------------------------------------------------
+# C16
+
+def c16_streams(ctx):
+    rng = ctx.rng
+    texts = []
+    for cc in rng.sample(countries(ctx), 12 if ctx.quick else 126):
+        texts.append(("iban", valid_iban(ctx, cc)))
+    texts += [("bic", random_bic(ctx)) for _ in range(8 if ctx.quick else 80)]
+    texts += [("iban", t) for t in ("", "DE", "DE00", "de89 3704 0044 0532 0130 00", "XX12", "DE8937040044053201300")]
+    texts += [("bic", t) for t in ("", "XX", "GENODEM1GLS", "genodem1", "GENOD")]
+    for k, t in list(texts):
+        if k == "iban" and len(t) > 6:
+            texts.append(("bban", t[:2] + t[4:]))
+    texts += [("bban", "DE"), ("bban", "XX123"), ("bban", "")]
+    for k, t in texts:
+        yield Case("prop", "spec_copies", [k, enc(t)], "copies-" + k, True)
+    strs = [("str", t) for _k, t in texts[:20]] + [("str", ""), ("str", "A"), ("str", "a")]
+    allv = texts + strs
+    for _ in range(300 if ctx.quick else 6000):
+        (k1, t1), (k2, t2) = rng.choice(allv), rng.choice(allv)
+        if rng.random() < 0.3:
+            t2 = t1                      # equal values of different kinds
+        if k1 == "str" and k2 == "str":
+            continue
+        yield Case("prop", "spec_value_laws", [k1, enc(t1), k2, enc(t2)], "value-laws", True)
+
+
+# ------------------------------------------------------------------------------------------------
 # C07
 
 def german_methods(ctx):
@@ -1080,6 +1108,13 @@ PREDICATES = {"de76_remainder10": _pred_de76, "pin_on_computed_digits": _pred_pi
 
 
 REGISTRY = {
+    "C16": {
+        "streams": c16_streams,
+        "rule": "IBAN / BIC / BBAN objects (valid, and constructed with validation off: empty, short, unknown country, "
+                "lower-case input) and plain strings: pairs through ==, !=, <, <=, >, >=, hash, dict lookup, sorted vs the compact "
+                "strings; every object through copy.copy, copy.deepcopy, pickle (default protocol and protocol 0): same class, equal, "
+                "same country, same BBAN and components",
+    },
     "C13": {
         "streams": c13_streams,
         "rule": "every country and the no-country form x seeds x {registry, no registry} x pinned component subsets taken from "
